@@ -70,6 +70,19 @@ class CorruptSuite:
                     continue
                 gets = p[2].split(",")
                 scan = p[3]
+                # writes acknowledged after the damaged database was opened, a clean close, a reopen
+                wf = [x for x in p if x.startswith("W:")]
+                if wf:
+                    w = wf[0].split(":")
+                    self.stats["post_writes"] = self.stats.get("post_writes", 0) + 1
+                    if len(w) >= 5 and not w[3].startswith("open-"):
+                        if w[1] == "ok" and not (w[3] == "nf" or w[3].startswith("err")):
+                            bad = "corruption %s: a key deleted after the damaged database was opened is back after a clean reopen (%s)" % (where, w[3])
+                            break
+                        if w[2] == "ok" and not (w[4] == "v77" or w[4].startswith("err")):
+                            bad = "corruption %s: a write acknowledged after the damaged database was opened is gone after a clean reopen (%s)" % (where, w[4])
+                            break
+                    p = [x for x in p if not x.startswith("W:")]
                 if scan == final and all((("v" + m[k]) if k in m else "nf") == g for k, g in zip(keys, gets)):
                     self.stats["identical"] += 1
                     continue
@@ -123,13 +136,20 @@ class CorruptSuite:
                             break
                     if not wrong and scan2 != final and not scan2.startswith("err"):
                         wrong = "the scan returned %s instead of %s or an error" % (lib.trunc(scan2, 200), lib.trunc(final, 200))
+                    in_first_block = len(p) >= 9 and p[8] == "1"
+                    alone = len(p) >= 10 and p[9] == "1"
                     if wrong:
-                        if openable or level not in ("0",):
+                        # a level-0 table that cannot be opened must fail the compaction; so must an
+                        # unreadable FIRST block of a level-0 table that is the only input of the
+                        # compaction (the merge produces nothing and the error of positioning the
+                        # iterator is the only thing left to look at). Errors met later, while
+                        # stepping, or next to other inputs are the known finding
+                        if not (level == "0" and (not openable or (in_first_block and alone))):
                             # KNOWN FINDING: block / lazily opened table errors are swallowed by the
                             # iterators a compaction merges
                             self.known_hits.append(("table-block-error-swallowed-by-iterators", cid, where))
                         else:
-                            bad = ("corruption %s (a level-0 table that cannot even be opened): after compact_range %s"
+                            bad = ("corruption %s (a level-0 table that cannot be opened, or the only input of the compaction with an unreadable first block): after compact_range %s"
                                    % (where, wrong))
                             break
                 if scan != final and not scan.startswith("err"):
